@@ -28,6 +28,10 @@ pub struct Flow {
     pub start_delay_us: u64,
     /// end the direction cleanly after the last byte
     pub fin: bool,
+    /// HTTP/2 uploads: an empty DATA frame (no END_STREAM) before every n-th piece; 0 = never.
+    /// Legal (RFC 9113 6.1), carries nothing, ends nothing.
+    #[serde(default)]
+    pub empty_frame_every: u32,
 }
 
 #[derive(Clone, Debug, Serialize, Deserialize)]
@@ -132,6 +136,7 @@ fn draw_flow(rng: &mut Rng, max_len: u64, gap_cap_us: u64) -> Flow {
         gap_every: 1 + rng.below(8) as u32,
         start_delay_us: if rng.chance(1, 3) { rng.size(1, gap_cap_us.max(1)) } else { 0 },
         fin: true,
+        empty_frame_every: if rng.chance(1, 6) { 1 + rng.below(5) as u32 } else { 0 },
     }
 }
 
@@ -286,6 +291,9 @@ pub struct TunnelObs {
     pub client_rx: PatternCheck,
     pub client_end: EndKind,
     pub client_end_t: u64,
+    /// the client received this many empty DATA frames in a row (tens of thousands: the
+    /// endpoint's HTTP/2 layer is emitting them in a loop) and stopped reading
+    pub empty_data_storm: u64,
     pub host_connected: bool,
     pub host_rx: PatternCheck,
     pub host_end: EndKind,
@@ -320,6 +328,7 @@ fn new_obs(seed: u64, i: usize) -> TunnelObs {
         client_rx: PatternCheck::new(down_tag(seed, i)),
         client_end: EndKind::Open,
         client_end_t: 0,
+        empty_data_storm: 0,
         host_connected: false,
         host_rx: PatternCheck::new(up_tag(seed, i)),
         host_end: EndKind::Open,
@@ -826,6 +835,10 @@ async fn h2_tunnel(
                     }
                 }
                 piece_no += 1;
+                if t.up.empty_frame_every > 0 && piece_no % t.up.empty_frame_every as u64 == 0 && off > 0 {
+                    world::count("h2_empty_data_frame");
+                    let _ = tx.send_data(Bytes::new(), false);
+                }
                 let mut sent_of_piece = 0usize;
                 while sent_of_piece < want {
                     tx.reserve_capacity(want - sent_of_piece);
@@ -896,10 +909,22 @@ async fn h2_tunnel(
         let down_done = down_done.clone();
         async move {
             let mut unreleased = 0u64;
+            let mut empties = 0u64;
             loop {
                 let before = obs.lock().unwrap().client_rx.received;
                 match body.data().await {
                     Some(Ok(d)) => {
+                        if d.is_empty() {
+                            empties += 1;
+                            if empties >= 20_000 {
+                                obs.lock().unwrap().empty_data_storm = empties;
+                                world::count("h2_empty_data_storm");
+                                break;
+                            }
+                            // nothing was received: no pause, no credit, no note
+                            continue;
+                        }
+                        empties = 0;
                         let after = {
                             let mut o = obs.lock().unwrap();
                             o.client_rx.feed(&d);
@@ -1110,6 +1135,20 @@ fn judge(plan: &RelayPlan, obs: &RelayObs, out: &mut Outcome) {
         return;
     }
     let proto = if plan.h2 { "h2" } else { "h1" };
+    if let Some((i, o)) = obs.tunnels.iter().enumerate().find(|(_, o)| o.empty_data_storm > 0) {
+        // The HTTP/2 layer of the endpoint emits empty DATA frames in a loop at one virtual
+        // instant (the client stopped reading after 20 000 of them): the session is wedged and
+        // what the other oracles would say about its tunnels follows from that.
+        out.nontrivial = true;
+        out.cell("h2:empty-data-storm");
+        let what = format!(
+            "tunnel {}: the client received {} empty DATA frames in a row after {} payload bytes (fault {:?})",
+            i, o.empty_data_storm, o.client_rx.received, plan.tunnels[i].fault
+        );
+        out.violate("C09", "relay:h2:endless-empty-data-frames", what.clone());
+        out.violate("C02", "relay:h2:session-wedged-by-empty-data-storm", what);
+        return;
+    }
     let timer_mode = plan.tcp_timeout_us < 10_000_000;
     let mut any_established = false;
     for (i, (t, o)) in plan.tunnels.iter().zip(&obs.tunnels).enumerate() {
@@ -1251,10 +1290,22 @@ fn judge(plan: &RelayPlan, obs: &RelayObs, out: &mut Outcome) {
                     );
                 }
                 if o.client_end == EndKind::Open && !o.client_aborted {
+                    // with data of the download still undelivered the HTTP/2 layer is the one
+                    // that sits on it (known finding); with everything delivered it is the
+                    // endpoint that forgot to end or reset the stream
+                    let stalled = plan.h2 && o.client_rx.received < o.host_tx_sent;
                     out.violate(
                         "C02",
-                        format!("relay:{}:{}:client-left-open", proto, fault_name(&t.fault)),
-                        format!("tunnel {}: client stream still open after {:?}", i, t.fault),
+                        format!(
+                            "relay:{}:{}:client-left-open{}",
+                            proto,
+                            fault_name(&t.fault),
+                            if stalled { ":download-stalled-in-h2" } else { "" }
+                        ),
+                        format!(
+                            "tunnel {}: client stream still open after {:?} ({} of {} bytes the destination sent were delivered)",
+                            i, t.fault, o.client_rx.received, o.host_tx_sent
+                        ),
                     );
                 }
                 // a clean end must not hide missing bytes (HTTP/2 can tell, HTTP/1.1 cannot)
